@@ -27,6 +27,7 @@ import (
 	"github.com/bufbuild/protocompile/linker"
 	"github.com/bufbuild/protocompile/parser"
 	"github.com/bufbuild/protocompile/reporter"
+	"google.golang.org/protobuf/encoding/protowire"
 	"google.golang.org/protobuf/proto"
 	"google.golang.org/protobuf/reflect/protoreflect"
 	"google.golang.org/protobuf/types/descriptorpb"
@@ -357,6 +358,74 @@ type cmt struct {
 	Braced  string // innermost braced declaration
 	OnEmpty bool   // attached to a token of an ast.EmptyDeclNode
 	Leading bool
+	Role    string // syntactic role of the token the comment is attached to (classifier only)
+}
+
+func (c cmt) where() string {
+	if c.Leading {
+		return c.Role + ":leading"
+	}
+	return c.Role + ":trailing"
+}
+
+// tokenRoles maps every token to "<grandparent>><parent>.<token kind>" (used only to classify
+// falsifications by trigger, never to decide them).
+func tokenRoles(f *ast.FileNode) map[ast.Token]string {
+	roles := map[ast.Token]string{}
+	short := func(n ast.Node) string {
+		s := fmt.Sprintf("%T", n)
+		s = strings.TrimPrefix(s, "*ast.")
+		s = strings.TrimPrefix(s, "ast.")
+		return strings.TrimSuffix(s, "Node")
+	}
+	var rec func(n ast.Node, parent, grand string, compact bool)
+	rec = func(n ast.Node, parent, grand string, compact bool) {
+		if cn, ok := n.(ast.CompositeNode); ok {
+			name := short(n)
+			if on, ok := n.(*ast.OptionNode); ok && on.Keyword == nil {
+				name = "CompactOption"
+				compact = true
+			}
+			for _, ch := range cn.Children() {
+				rec(ch, name, parent, compact)
+			}
+			return
+		}
+		kind := "tok"
+		switch t := n.(type) {
+		case *ast.RuneNode:
+			kind = string(t.Rune)
+			if (t.Rune == ',' || t.Rune == ';') && parent == "MessageLiteral" {
+				kind = "sep"
+			}
+			if t.Rune == 0 {
+				kind = "EOF"
+			}
+		case *ast.KeywordNode:
+			kind = "keyword"
+		case *ast.IdentNode:
+			kind = "ident"
+		case *ast.StringLiteralNode:
+			kind = "string"
+		case *ast.UintLiteralNode, *ast.FloatLiteralNode:
+			kind = "number"
+		case *ast.SpecialFloatLiteralNode:
+			kind = "keyword"
+		}
+		r := parent + "." + kind
+		switch parent {
+		case "FieldReference", "CompoundIdent", "CompoundStringLiteral", "NegativeIntLiteral", "SignedFloatLiteral", "Range", "OptionName", "MessageField", "RPCType", "MapType", "CompactOptions", "ArrayLiteral", "MessageLiteral":
+			r = grand + ">" + r
+		}
+		if compact {
+			r = "compact/" + r
+		}
+		if tn, ok := n.(ast.TerminalNode); ok {
+			roles[tn.Token()] = r
+		}
+	}
+	rec(f, "", "", false)
+	return roles
 }
 
 // normComment strips the comment delimiters and treats every run of whitespace and '*' as one
@@ -602,6 +671,7 @@ func buildOwners(f *ast.FileNode) *owners {
 // parser attributed it to.
 func collectComments(f *ast.FileNode) ([]cmt, error) {
 	o := buildOwners(f)
+	roles := tokenRoles(f)
 	var out []cmt
 	toks := f.Tokens()
 	nItems := 0
@@ -616,7 +686,7 @@ func collectComments(f *ast.FileNode) ([]cmt, error) {
 		add := func(cs ast.Comments, leading bool) {
 			for i := 0; i < cs.Len(); i++ {
 				raw := cs.Index(i).RawText()
-				out = append(out, cmt{Text: normComment(raw), Raw: raw, Owner: owner, Braced: braced, OnEmpty: onEmpty, Leading: leading})
+				out = append(out, cmt{Text: normComment(raw), Raw: raw, Owner: owner, Braced: braced, OnEmpty: onEmpty, Leading: leading, Role: roles[tok]})
 			}
 		}
 		add(info.LeadingComments(), true)
@@ -659,7 +729,57 @@ func diffMultiset(a, b map[string]int) (lost, added []string) {
 // ownerMode selects which owner key the attachment clause uses.
 func ownerOf(c cmt) string { return c.Owner }
 
+// canonicalKey folds the trigger-level keys of the analysed root causes into one name each; keys
+// of anything not analysed yet stay as they are (fine-grained).
+func canonicalKey(v *Verdict, n1 *ast.FileNode) {
+	k := v.Key
+	has := func(sub string) bool { return strings.Contains(k, sub) }
+	switch {
+	case k == "format-error" && strings.Contains(v.Msg, "decrement indentation"):
+		k = "format-error:indent-underflow"
+	case k == "output-does-not-parse" && lineCommentWithBlockEnd(n1):
+		k = "output-does-not-parse:line-comment-with-block-end"
+	case strings.HasPrefix(k, "comment-duplicated:") && has("OptionName>FieldReference.") && has(":trailing") && has("compact/"):
+		k = "comment-duplicated:compact-option-name"
+	case strings.HasPrefix(k, "comment-lost:") && has("MessageLiteral.sep:leading"):
+		k = "comment-lost:message-literal-separator-leading"
+	case strings.HasPrefix(k, "comment-lost:") && has("MessageLiteral.sep:trailing"):
+		k = "comment-lost:message-literal-separator-trailing"
+	case strings.HasPrefix(k, "comment-lost:Import>") && len(dupImports(n1)) > 0:
+		k = "comment-lost:duplicate-import"
+	case strings.HasPrefix(k, "not-idempotent:whitespace") && strings.HasPrefix(v.Formatted, "\n"):
+		k = "not-idempotent:whitespace:leading-blank-line"
+	case strings.HasPrefix(k, "not-idempotent:whitespace-at-comment:block-multiline"):
+		k = "not-idempotent:whitespace:multiline-block-comment"
+	case strings.HasPrefix(k, "not-idempotent:whitespace-at-comment"):
+		k = "not-idempotent:whitespace:comment-spacing"
+	}
+	v.Key = k
+}
+
+func lineCommentWithBlockEnd(n *ast.FileNode) bool {
+	seq := n.Items()
+	for it, ok := seq.First(); ok; it, ok = seq.Next(it) {
+		if _, cm := n.GetItem(it); cm.IsValid() {
+			if raw := cm.RawText(); strings.HasPrefix(raw, "//") && strings.Contains(raw, "*/") {
+				return true
+			}
+		}
+	}
+	return false
+}
+
 func runOracle(c *Case) Verdict {
+	v := runOracleRaw(c)
+	if v.Key != "" && v.HarnessErr == "" {
+		if n1, err := parseSrc(c.Path, c.Source); err == nil {
+			canonicalKey(&v, n1)
+		}
+	}
+	return v
+}
+
+func runOracleRaw(c *Case) Verdict {
 	var v Verdict
 	n1, err := parseSrc(c.Path, c.Source)
 	if err != nil {
@@ -677,6 +797,12 @@ func runOracle(c *Case) Verdict {
 			v.EmptyStmtCmts = true
 		}
 	}
+	// descriptors of the input (facts about the case)
+	dup := dupImports(n1)
+	u1, uerr1 := unlinked(n1)
+	v.UnlinkedOK = uerr1 == nil
+	l1, lerr1 := compileLinked(c, c.Source)
+	v.Linked = lerr1 == nil
 	// 1. format + parse
 	out1, err := formatNode(n1)
 	v.Formatted = out1
@@ -690,21 +816,18 @@ func runOracle(c *Case) Verdict {
 		return v
 	}
 	// 2. meaning
-	dup := dupImports(n1)
-	u1, uerr1 := unlinked(n1)
 	var unl string
+	optsPermuted := false // the file option statements of x and F(x) are the same multiset
 	if uerr1 == nil {
-		v.UnlinkedOK = true
 		u2, uerr2 := unlinked(n2)
 		if uerr2 != nil {
 			v.Key, v.Msg = "meaning:formatted-descriptor-error", fmt.Sprintf("descriptor of the original builds, of the formatted file fails: %v\n--- formatted:\n%s", uerr2, out1)
 			return v
 		}
 		unl = compareUnlinked(u1, u2, dup)
+		optsPermuted = fileOptionMultiset(u1) == fileOptionMultiset(u2)
 	}
-	l1, lerr1 := compileLinked(c, c.Source)
 	if lerr1 == nil {
-		v.Linked = true
 		l2, lerr2 := compileLinked(c, out1)
 		if lerr2 != nil {
 			v.Key, v.Msg = "meaning:formatted-does-not-link", fmt.Sprintf("original compiles, formatted does not: %v\n--- formatted:\n%s", lerr2, out1)
@@ -714,8 +837,14 @@ func runOracle(c *Case) Verdict {
 			fd.SourceCodeInfo = nil
 			canonDeps(fd, dup)
 		}
-		if !proto.Equal(l1, l2) {
-			if unl == "reordered" {
+		// custom options are extension fields backed by per-compilation dynamic types: proto.Equal
+		// never equates those, the deterministic wire form does
+		if !bytes.Equal(detBytes(l1), detBytes(l2)) {
+			o1, o2 := l1.Options, l2.Options
+			l1.Options, l2.Options = nil, nil
+			onlyFileOptions := bytes.Equal(detBytes(l1), detBytes(l2))
+			l1.Options, l2.Options = o1, o2
+			if onlyFileOptions && o1 != nil && o2 != nil && (sameFieldMultiset(o1, o2) || optsPermuted) {
 				v.Key, v.Msg = "meaning:repeated-option-reordered", "values of a repeated file option were reordered and the compiled descriptors differ: "+firstDiff(l1, l2)+"\n--- formatted:\n"+out1
 			} else {
 				v.Key, v.Msg = "meaning:linked-descriptor-differs", firstDiff(l1, l2)+"\n--- formatted:\n"+out1
@@ -727,6 +856,9 @@ func runOracle(c *Case) Verdict {
 			v.Key, v.Msg = "meaning:repeated-option-reordered", "file options with the same name were reordered (uninterpreted_option order differs)\n--- formatted:\n"+out1
 		} else {
 			v.Key, v.Msg = "meaning:descriptor-differs", unl+"\n--- formatted:\n"+out1
+			if anyURLDropped(n1, n2) {
+				v.Key = "meaning:any-type-url-dropped"
+			}
 		}
 		return v
 	}
@@ -758,6 +890,12 @@ func runOracle(c *Case) Verdict {
 			}
 		}
 		key := "comment-lost"
+		for _, x := range cm1 {
+			if x.Text == lost[0] {
+				key = "comment-lost:" + x.where()
+				break
+			}
+		}
 		if allOnEmpty {
 			key = keyKnownEmpty
 		}
@@ -765,7 +903,14 @@ func runOracle(c *Case) Verdict {
 		return v
 	}
 	if len(added) > 0 {
-		v.Key, v.Msg = "comment-added", fmt.Sprintf("comments in the output that are not in the input: %q\n--- formatted:\n%s", added, out1)
+		key := "comment-added"
+		for _, x := range cm1 {
+			if x.Text == added[0] {
+				key = "comment-duplicated:" + x.where()
+				break
+			}
+		}
+		v.Key, v.Msg = key, fmt.Sprintf("comments in the output that are not in the input: %q\n--- formatted:\n%s", added, out1)
 		return v
 	}
 	var o1, o2 []string
@@ -776,7 +921,14 @@ func runOracle(c *Case) Verdict {
 		o2 = append(o2, x.Text+" @ "+ownerOf(x))
 	}
 	if moved, to := diffMultiset(multiset(o1), multiset(o2)); len(moved) > 0 {
-		v.Key, v.Msg = "comment-moved", fmt.Sprintf("comment attached to another declaration after formatting: before %q, after %q\n--- formatted:\n%s", moved, to, out1)
+		key := "comment-moved"
+		for _, x := range cm1 {
+			if x.Text+" @ "+ownerOf(x) == moved[0] {
+				key = "comment-moved:" + x.where()
+				break
+			}
+		}
+		v.Key, v.Msg = key, fmt.Sprintf("comment attached to another declaration after formatting: before %q, after %q\n--- formatted:\n%s", moved, to, out1)
 		return v
 	}
 	// 4. idempotence
@@ -786,7 +938,7 @@ func runOracle(c *Case) Verdict {
 		return v
 	}
 	if out2 != out1 {
-		key := "not-idempotent"
+		key := classifyNonIdempotent(c, n1, out1, out2)
 		if v.EmptyStmtCmts {
 			key = keyKnownEmpty
 		}
@@ -794,6 +946,175 @@ func runOracle(c *Case) Verdict {
 		return v
 	}
 	return v
+}
+
+// classifyNonIdempotent names the trigger of an idempotence failure by counterfactual: does the
+// failure go away when the empty statements / the comments are blanked out of the input?
+func classifyNonIdempotent(c *Case, n *ast.FileNode, out1, out2 string) string {
+	idem := func(src string) bool {
+		m, err := parseSrc(c.Path, src)
+		if err != nil {
+			return false
+		}
+		o1, err := formatNode(m)
+		if err != nil {
+			return false
+		}
+		m2, err := parseSrc(c.Path, o1)
+		if err != nil {
+			return false
+		}
+		o2, err := formatNode(m2)
+		return err == nil && o1 == o2
+	}
+	if s, changed := blankEmptyStatements(c.Source, n); changed {
+		if idem(s) {
+			return "not-idempotent:empty-statement"
+		}
+		// empty statements and comments may both be necessary causes
+		if m, err := parseSrc(c.Path, s); err == nil {
+			if s2, ch2 := blankComments(s, m, -1); ch2 && idem(s2) {
+				if sc, _ := blankComments(c.Source, n, -1); !idem(sc) {
+					return "not-idempotent:empty-statement"
+				}
+			}
+		}
+	}
+	ws := strings.NewReplacer(" ", "", "\t", "", "\n", "", "\r", "")
+	kind := "content"
+	if ws.Replace(out1) == ws.Replace(out2) {
+		kind = "whitespace"
+	}
+	if s, changed := blankComments(c.Source, n, -1); changed && idem(s) {
+		// which single comment is responsible?
+		cms, _ := collectComments(n)
+		for i := 0; i < len(cms) && i < 60; i++ {
+			if s1, ok := blankComments(c.Source, n, i); ok && idem(s1) {
+				style := "line"
+				if strings.HasPrefix(cms[i].Raw, "/*") {
+					style = "block"
+					if strings.Contains(cms[i].Raw, "\n") {
+						style = "block-multiline"
+					}
+				}
+				return "not-idempotent:" + kind + "-at-comment:" + style + ":" + cms[i].where()
+			}
+		}
+		return "not-idempotent:" + kind + "-at-comment"
+	}
+	return "not-idempotent:" + kind
+}
+
+func blankEmptyStatements(src string, n *ast.FileNode) (string, bool) {
+	b := []byte(src)
+	changed := false
+	var rec func(ast.Node)
+	rec = func(x ast.Node) {
+		if e, ok := x.(*ast.EmptyDeclNode); ok {
+			off := n.NodeInfo(e.Semicolon).Start().Offset
+			if off < len(b) && b[off] == ';' {
+				b[off] = ' '
+				changed = true
+			}
+			return
+		}
+		if cn, ok := x.(ast.CompositeNode); ok {
+			for _, ch := range cn.Children() {
+				rec(ch)
+			}
+		}
+	}
+	rec(n)
+	return string(b), changed
+}
+
+// blankComments overwrites comment number `only` (in source order; -1 = every comment) with blanks.
+func blankComments(src string, n *ast.FileNode, only int) (string, bool) {
+	b := []byte(src)
+	changed := false
+	seq := n.Items()
+	idx := -1
+	for it, ok := seq.First(); ok; it, ok = seq.Next(it) {
+		if _, cm := n.GetItem(it); cm.IsValid() {
+			idx++
+			if only >= 0 && idx != only {
+				continue
+			}
+			start := cm.Start().Offset
+			end := start + len(cm.RawText())
+			for i := start; i < end && i < len(b); i++ {
+				if b[i] != '\n' {
+					b[i] = ' '
+				}
+			}
+			changed = true
+		}
+	}
+	// do not introduce the "blank lines at the start of the file" trigger
+	return strings.TrimLeft(string(b), " \t\r\n"), changed
+}
+
+// sameFieldMultiset reports whether two messages have the same multiset of top-level wire fields
+// (i.e. differ at most in the order of repeated values / fields).
+func sameFieldMultiset(a, b proto.Message) bool {
+	split := func(m proto.Message) ([]string, bool) {
+		raw := detBytes(m)
+		var out []string
+		for len(raw) > 0 {
+			num, typ, n := protowire.ConsumeTag(raw)
+			if n < 0 {
+				return nil, false
+			}
+			m := protowire.ConsumeFieldValue(num, typ, raw[n:])
+			if m < 0 {
+				return nil, false
+			}
+			out = append(out, string(raw[:n+m]))
+			raw = raw[n+m:]
+		}
+		sort.Strings(out)
+		return out, true
+	}
+	x, ok1 := split(a)
+	y, ok2 := split(b)
+	if !ok1 || !ok2 || len(x) != len(y) {
+		return false
+	}
+	for i := range x {
+		if x[i] != y[i] {
+			return false
+		}
+	}
+	return true
+}
+
+// anyURLDropped: the input has more `[prefix/type]` references than the output.
+func anyURLDropped(a, b *ast.FileNode) bool {
+	count := func(f *ast.FileNode) int {
+		n := 0
+		var rec func(ast.Node)
+		rec = func(x ast.Node) {
+			if fr, ok := x.(*ast.FieldReferenceNode); ok && fr.URLPrefix != nil {
+				n++
+			}
+			if cn, ok := x.(ast.CompositeNode); ok {
+				for _, ch := range cn.Children() {
+					rec(ch)
+				}
+			}
+		}
+		rec(f)
+		return n
+	}
+	return count(a) > count(b)
+}
+
+func detBytes(m proto.Message) []byte {
+	b, err := proto.MarshalOptions{Deterministic: true, AllowPartial: true}.Marshal(m)
+	if err != nil {
+		panic("harness: marshal: " + err.Error())
+	}
+	return b
 }
 
 func prototextish(m proto.Message) string {
